@@ -1150,7 +1150,7 @@ fn gen_shared(r: &mut Rng, out: &mut RunOut) -> Vec<Shared> {
 }
 
 fn gen_plan(r: &mut Rng, tier: Tier, out: &mut RunOut) -> Plan {
-    let shared = gen_shared(r, out);
+    let mut shared = gen_shared(r, out);
     let wide = r.chance(1, 8);
     let n_threads = if wide { r.urange(8, 16) } else { r.urange(2, 4) };
     let mut w: [u32; 16] = [5, 3, 3, 5, 4, 4, 6, 5, 4, 3, 2, 2, 3, 4, 4, 5];
@@ -1170,13 +1170,29 @@ fn gen_plan(r: &mut Rng, tier: Tier, out: &mut RunOut) -> Plan {
     // (VERIF_C20_STORM=<op index> forces storms of one kind: an experimenter's switch, unused by checks)
     let forced: Option<usize> = std::env::var("VERIF_C20_STORM").ok().and_then(|s| s.parse().ok());
     if r.chance(1, 3) || forced.is_some() {
-        let fam = forced.unwrap_or(*r.pick(&[10usize, 10, 10, 8, 8, 8, 6, 7, 0, 3, 11, 12]));
+        let fam = forced.unwrap_or(*r.pick(&[10usize, 10, 10, 8, 8, 8, 6, 7, 7, 0, 3, 11, 12]));
         w = [0; 16];
         w[fam] = 1;
         out.count("storm_workloads", 1);
         if fam == 10 {
             // one policy template, many satisfiers
             policy_kind = Some(*r.pick(&[7u8, 8, 9, 3, 4, 7, 9]));
+        }
+        if fam == 6 || fam == 7 {
+            // one shared program full of two-sided case nodes: every execution takes a branch of
+            // each, every prune rewrites each — on the same shared object from all threads
+            for _ in 0..10 {
+                let fam_ = if r.bool() { Family::Core } else { Family::Elements };
+                let rec = programs::case_recipe(r, fam_);
+                if let Some(b) = programs::build(&rec) {
+                    let (p, w) = b.redeem.to_vec_with_witness();
+                    let mut sh = Shared { family: fam_, program: p, witness: w, rebuild_ok: false };
+                    sh.rebuild_ok = rebuild_equivalent(&sh);
+                    shared = vec![sh];
+                    out.count("storm_case_programs", 1);
+                    break;
+                }
+            }
         }
         if fam == 8 {
             // one program template (a recipe with at least one word constant), many instances at
